@@ -1807,7 +1807,7 @@ def run(ctx):
     if missing:
         ctx.violation('utilities missing from the build: %s' % missing, dict(missing=missing, relation='build'), no_input=True)
         return
-    ncases = int(os.environ.get('C20_CASES', '0')) or (48 if ctx.tier == 'quick' else 240)
+    ncases = int(os.environ.get('C20_CASES', '0')) or (48 if ctx.tier == 'quick' else 220)
     stats = {}
     occ = {}
     case_seed = ctx.rng.next() & 0x7fffffff          # all randomness derives from ctx.rng (VERIF_SEED)
